@@ -207,7 +207,7 @@ func (h *H) checkAdmission(rec *Rec, res string, before, after *Snap) {
 		if exp <= types.ExpireBound {
 			return exp <= height
 		}
-		if exp > types.TxHeightFlag {
+		if exp > types.TxHeightFlag && !e.Cfg.Para { // TxHeight expiry exists on the main chain only
 			th := exp - types.TxHeightFlag
 			return !(th-types.LowAllowPackHeight <= height && height <= th+types.HighAllowPackHeight)
 		}
@@ -239,6 +239,20 @@ func (h *H) checkAdmission(rec *Rec, res string, before, after *Snap) {
 		}
 	}
 	curNonce := e.nonce[rec.Tx.From()]
+	// eth-signed members behind the head: the property speaks of every eth-signed sender
+	for _, m := range rec.Members[1:] {
+		if !m.P.isEthSig() {
+			continue
+		}
+		if m.Tx.Nonce < e.nonce[m.Tx.From()] {
+			viol = append(viol, "member-eth-nonce-too-low")
+		}
+		for _, it := range before.St.Queue {
+			if it.Tx.From() == m.Tx.From() && it.Tx.Nonce == m.Tx.Nonce && !bytes.Equal(it.Tx.Hash(), m.Hash) {
+				viol = append(viol, "member-eth-nonce-already-pending")
+			}
+		}
+	}
 	e.mu.Unlock()
 	if inPool(before, rec.Hash) {
 		viol = append(viol, "already-in-pool")
@@ -271,7 +285,30 @@ func (h *H) checkAdmission(rec *Rec, res string, before, after *Snap) {
 	}
 	sort.Strings(viol)
 	if admitted && len(viol) > 0 {
-		h.pred("eventTx", "admitted-despite-"+viol[0], fmt.Sprintf("tx=t%d viol=%v res=%s before=[%s]", rec.ID, viol, res, before.Text))
+		site, kind := "eventTx", "admitted-despite-"+viol[0]
+		// two shapes with their own signature (see findings.d/C22.json): every violated clause is one the
+		// code never evaluates for this submission
+		skipped := map[string]bool{"expired": true, "expiring-within-60s": true, "fee-too-low": true, "invalid-recipient": true,
+			"blacklisted": true, "sender-at-limit": true}
+		member := map[string]bool{"member-eth-nonce-too-low": true, "member-eth-nonce-already-pending": true}
+		onlyMember, onlySkipped := true, true
+		for _, v := range viol {
+			if !member[v] {
+				onlyMember = false
+			}
+			if !member[v] && !skipped[v] {
+				onlySkipped = false
+			}
+		}
+		if onlyMember {
+			site, kind = "evmTxNonceCheck", "admitted-group-with-unchecked-non-head-eth-member-nonce"
+		} else if rec.Fwd && onlySkipped {
+			site, kind = "checkTxs-forward2main", "admitted-without-basic-checks"
+		}
+		h.pred(site, kind, fmt.Sprintf("tx=t%d viol=%v res=%s before=[%s]", rec.ID, viol, res, before.Text))
+	}
+	if rec.Fwd {
+		h.Out.Stat("submit_forwarded_to_main", 1)
 	}
 	if len(viol) == 0 {
 		h.Out.Stat("submit_acceptable", 1)
@@ -426,7 +463,7 @@ func (h *H) checkTxList(txs []*types.Transaction, count int64, excl [][]byte, si
 				if exp <= height {
 					h.pred(site, "expired-by-height-returned", detail())
 				}
-			case exp > types.TxHeightFlag:
+			case exp > types.TxHeightFlag && !h.E.Cfg.Para:
 				th := exp - types.TxHeightFlag
 				if !(th-types.LowAllowPackHeight <= height && height <= th+types.HighAllowPackHeight) {
 					h.pred(site, "expired-by-txheight-returned", detail())
@@ -444,9 +481,14 @@ func (h *H) checkTxList(txs []*types.Transaction, count int64, excl [][]byte, si
 	// non-eth keep arrival order; eth per sender consecutive nonces from the current nonce
 	last := -1
 	ethBy := map[string][]*types.Transaction{}
+	paraBy := map[string][]*types.Transaction{}
 	for _, tx := range txs {
 		k := string(tx.Hash())
 		rec := h.Reg.ByID[h.Reg.byHash[k]]
+		if rec != nil && rec.EthSig && !rec.EthSort {
+			// eth-signed with a para-chain executor: the property text makes no exception for them
+			paraBy[tx.From()] = append(paraBy[tx.From()], tx)
+		}
 		if rec != nil && rec.EthSort {
 			ethBy[tx.From()] = append(ethBy[tx.From()], tx)
 			continue
@@ -469,5 +511,17 @@ func (h *H) checkTxList(txs []*types.Transaction, count int64, excl [][]byte, si
 			}
 		}
 		h.Out.Stat("txlist_eth_senders", 1)
+	}
+	for addr, l := range paraBy {
+		h.E.mu.Lock()
+		cur := h.E.nonce[addr]
+		h.E.mu.Unlock()
+		for i, tx := range l {
+			if tx.Nonce != cur+int64(i) {
+				h.pred("sortEthSignTyTx", "eth-signed-para-exec-not-nonce-ordered", detail())
+				break
+			}
+		}
+		h.Out.Stat("txlist_eth_para_senders", 1)
 	}
 }
